@@ -83,6 +83,11 @@ def grid4d_is_N_unique_rotations(alg_name, N, result):
         else:
             if not np.array_equal(G, G_default):
                 problems.append("default getter differs from only_upper=True")
+            # the other spellings of the flag a caller may hand over (numpy bool, 0/1, result of a numpy comparison)
+            for flag, want in ((np.True_, G), (1, G), (np.float64(N) > -1, G), (np.False_, F), (0, F)):
+                got = np.asarray(result.get_grid_as_array(only_upper=flag), dtype=float)
+                if got.shape != want.shape or got.tobytes() != want.tobytes():
+                    problems.append(f"only_upper={flag!r} ({type(flag).__name__}) gives shape {got.shape}, the bool of the same truth value {want.shape}")
             if not np.allclose(np.linalg.norm(G, axis=1), 1.0, rtol=0, atol=1e-9):
                 problems.append("rows not of unit norm")
             if not all(canonical(q) for q in G):
